@@ -2,8 +2,7 @@ import PyaModel.Spec.OpsSpec
 /-!
 # Proofs/C19 — helper lemmas for Props/C19 (literal subscripts, binary-operator protocol)
 -/
-namespace Pya
-namespace Ops
+namespace Pya.C19
 
 /-! ## member sequences and expansions -/
 
@@ -173,23 +172,14 @@ private theorem literal_branch {α : Type} (typ : SeqTyp) (xs : List α) (k : In
     have : (-(xs.length : Int) ≤ k ∧ k < (xs.length : Int)) := by rw [← hr, he]; simp
     rw [if_pos this]
 
-/-- Without variadic members both `getitem` and `getitemFixed` are CPython's indexing of the member
-list: the element, or (out of range) the error for tuples / the common type for lists. -/
+/-- Without variadic members `getitem` is CPython's indexing of the member list: the element, or
+(out of range) the error for tuples / the common type for lists. -/
 theorem getitem_noMany {α : Type} (typ : SeqTyp) (ms : List (Bool × α)) (h : hasMany ms = false) (k : Int) :
     getitem typ ms k =
       (match elemAt (ms.map (·.2)) k with
        | some x => GetRes.member x
        | none => if typ = .tuple then GetRes.error else GetRes.fallback) := by
   unfold getitem
-  rw [memberSequence_of_noMany ms h]
-  exact literal_branch typ _ k
-
-theorem getitemFixed_noMany {α : Type} (typ : SeqTyp) (ms : List (Bool × α)) (h : hasMany ms = false) (k : Int) :
-    getitemFixed typ ms k =
-      (match elemAt (ms.map (·.2)) k with
-       | some x => GetRes.member x
-       | none => if typ = .tuple then GetRes.error else GetRes.fallback) := by
-  unfold getitemFixed
   rw [memberSequence_of_noMany ms h]
   exact literal_branch typ _ k
 
@@ -215,25 +205,6 @@ theorem scan_some {α : Type} (tgt : Nat) (i : Nat) (l : List (Bool × α)) (m :
         have hne : i ≠ tgt := by simpa using he
         obtain ⟨pre, post, hl, hlen, hm⟩ := ih (i + 1) h (by omega)
         refine ⟨(false, x) :: pre, post, by simp [hl], by simp [hlen]; omega, by simpa [hasMany] using hm⟩
-    · simp [scan] at h
-
-/-- Conversely the loop only looks at the variadic-free prefix. -/
-theorem scan_some_lt_takeWhile {α : Type} (tgt : Nat) (i : Nat) (l : List (Bool × α)) (m : α)
-    (h : scan tgt i l = some m) (hi : i ≤ tgt) : tgt - i < (l.takeWhile (!·.1)).length := by
-  induction l generalizing i with
-  | nil => simp [scan] at h
-  | cons hd t ih =>
-    obtain ⟨many, x⟩ := hd
-    cases many
-    · simp only [scan, Bool.false_eq_true, if_false] at h
-      by_cases he : (i == tgt) = true
-      · have : i = tgt := by simpa using he
-        simp [List.takeWhile, this]
-      · simp only [he] at h
-        have hne : i ≠ tgt := by simpa using he
-        have := ih (i + 1) h (by omega)
-        simp [List.takeWhile]
-        omega
     · simp [scan] at h
 
 /-! ## soundness of the two scanning branches -/
@@ -339,5 +310,4 @@ theorem cpy_fromRight (same rprio : Bool) (l r : RSide) (hr : r.has = true) (hv 
   cases same <;> cases rprio <;> cases lh <;> cases lrt <;>
     simp_all [cpyBinop, attempt, RSide.yields, Dbin_sameTypeReflected, Dbin_firstRaisesTE]
 
-end Ops
-end Pya
+end Pya.C19
